@@ -122,7 +122,13 @@ def main():
             # run only shows the .pka summary, which by design omits groups
             # penalised by covalent coupling (e.g. Asp of an N-terminal residue)
             if cen is not None and not expect_error and delivery != 'cli':
-                expected = [lab for lab, idx in cen if idx not in lost]
+                # a label is expected iff none of its defining records (one per
+                # conformation that carries the atom) was lost
+                gone = set(lab for lab, idx in cen if idx in lost)
+                expected = []
+                for lab, idx in cen:
+                    if lab not in gone and lab not in expected:
+                        expected.append(lab)
             out = run_case(text, f['stem'], delivery, options,
                            os.path.join(job['scratch'], 'c%05d' % n), suffix)
             verdict = M.judge(out, expect_error, expected)
